@@ -7,55 +7,64 @@
 From Coupe Require Import Lib.Prelude Lib.Graph Model.Kl Proofs.KlProofs Gen.KlGen.
 Open Scope Z_scope.
 
-(* the implementation's entry point: the model at the flags of the current source *)
-Definition kl_cfg_impl (mp mf : option N) (mb : N) : kl_cfg :=
+(* the implementation's entry point: the model at the flags of the current source; [sp] says
+   which edge_cut the topology type has (true: CsMatView's override; false: the provided
+   method of the Topology trait -- Grid, &T, any user type) *)
+Definition kl_cfg_impl (sp : bool) (mp mf : option N) (mb : N) : kl_cfg :=
   {| max_passes := mp; max_flips := mf; max_bad := mb;
      old_scan := kl_first_scan_unwraps; old_rewind := kl_rewind_keeps_first_swap;
-     few_ids_return := kl_few_ids_return |}.
-Definition kl_impl mp mf mb := kl (kl_cfg_impl mp mf mb).
+     few_ids_return := kl_few_ids_return; sprs_cut := sp |}.
+Definition kl_impl sp mp mf mb := kl (kl_cfg_impl sp mp mf mb).
 
 (* part sizes: same length, every part id labels as many vertices as before
-   (every graph, every partition, every limit) *)
-Theorem C15_sizes : forall mp mf mb fuel g wlen p q,
-  kl_impl mp mf mb fuel g wlen p = Ok q -> length q = length p /\ same_sizes p q.
-Proof. exact (fun mp mf mb => kl_sizes (kl_cfg_impl mp mf mb)). Qed.
+   (every graph, every partition, every limit, either cut function) *)
+Theorem C15_sizes : forall sp mp mf mb fuel g wlen p q,
+  kl_impl sp mp mf mb fuel g wlen p = Ok q -> length q = length p /\ same_sizes p q.
+Proof. exact (fun sp mp mf mb => kl_sizes (kl_cfg_impl sp mp mf mb)). Qed.
 Print Assumptions C15_sizes.
 
-(* the cut as the code computes it (CsMatView::edge_cut) never increases: every graph,
-   symmetric or not, every partition, every value of the three limits *)
-Theorem C15_cut_not_worse_sprs : forall mp mf mb fuel g wlen p q,
-  kl_impl mp mf mb fuel g wlen p = Ok q -> edge_cut_sprs g q <= edge_cut_sprs g p.
-Proof. exact (fun mp mf mb fuel g wlen p q => kl_cut_not_worse_sprs (kl_cfg_impl mp mf mb) fuel g wlen p q eq_refl). Qed.
-Print Assumptions C15_cut_not_worse_sprs.
+(* the cut as the code computes it never increases: every graph, symmetric or not, rows in any
+   order, every partition, every value of the three limits *)
+Theorem C15_cut_not_worse_own : forall sp mp mf mb fuel g wlen p q,
+  kl_impl sp mp mf mb fuel g wlen p = Ok q -> cut_of sp g q <= cut_of sp g p.
+Proof. exact (fun sp mp mf mb fuel g wlen p q => kl_cut_not_worse_own (kl_cfg_impl sp mp mf mb) fuel g wlen p q eq_refl). Qed.
+Print Assumptions C15_cut_not_worse_own.
 
-(* ... which on a CSR matrix (rows sorted by column) is Topology::edge_cut *)
-Theorem C15_cut_not_worse : forall mp mf mb fuel g wlen p q, rows_sorted g ->
-  kl_impl mp mf mb fuel g wlen p = Ok q -> edge_cut g q <= edge_cut g p.
-Proof. exact (fun mp mf mb fuel g wlen p q => kl_cut_not_worse (kl_cfg_impl mp mf mb) fuel g wlen p q eq_refl). Qed.
+(* Topology::edge_cut never increases on a topology that uses the trait's own edge_cut
+   (coupe::Grid, adjacency lists in any neighbour order) ... *)
+Theorem C15_cut_not_worse_generic : forall mp mf mb fuel g wlen p q,
+  kl_impl false mp mf mb fuel g wlen p = Ok q -> edge_cut g q <= edge_cut g p.
+Proof. exact (fun mp mf mb fuel g wlen p q => kl_cut_not_worse_generic (kl_cfg_impl false mp mf mb) fuel g wlen p q eq_refl eq_refl). Qed.
+Print Assumptions C15_cut_not_worse_generic.
+
+(* ... and on a CSR matrix (rows sorted by column), where the override computes the same value *)
+Theorem C15_cut_not_worse : forall sp mp mf mb fuel g wlen p q, (sp = true -> rows_sorted g) ->
+  kl_impl sp mp mf mb fuel g wlen p = Ok q -> edge_cut g q <= edge_cut g p.
+Proof. exact (fun sp mp mf mb fuel g wlen p q => kl_cut_not_worse (kl_cfg_impl sp mp mf mb) fuel g wlen p q eq_refl). Qed.
 Print Assumptions C15_cut_not_worse.
 
 (* no panic inside the contract: square matrix with in-range columns, one weight per
    vertex, at most two part ids in use (two non-empty parts, one part, or an empty input) *)
-Theorem C15_no_panic : forall mp mf mb fuel g wlen p s,
+Theorem C15_no_panic : forall sp mp mf mb fuel g wlen p s,
   wf_graph g (length p) -> (length p <= wlen)%nat -> (length (uniq [] p) <= 2)%nat ->
-  kl_impl mp mf mb fuel g wlen p <> Panic s.
-Proof. exact (fun mp mf mb fuel g wlen p s => kl_no_panic (kl_cfg_impl mp mf mb) fuel g wlen p s eq_refl eq_refl eq_refl). Qed.
+  kl_impl sp mp mf mb fuel g wlen p <> Panic s.
+Proof. exact (fun sp mp mf mb fuel g wlen p s => kl_no_panic (kl_cfg_impl sp mp mf mb) fuel g wlen p s eq_refl eq_refl eq_refl). Qed.
 Print Assumptions C15_no_panic.
 
 (* termination: with non-negative edge weights (initial cut + 2) passes are enough,
    whatever max_passes is (None included) *)
-Theorem C15_terminates : forall mp mf mb fuel g wlen p,
-  nonneg_edges g -> (kl_fuel g p <= fuel)%nat -> kl_impl mp mf mb fuel g wlen p <> OutOfFuel.
-Proof. exact (fun mp mf mb => kl_terminates (kl_cfg_impl mp mf mb)). Qed.
+Theorem C15_terminates : forall sp mp mf mb fuel g wlen p,
+  nonneg_edges g -> (kl_fuel sp g p <= fuel)%nat -> kl_impl sp mp mf mb fuel g wlen p <> OutOfFuel.
+Proof. exact (fun sp mp mf mb => kl_terminates (kl_cfg_impl sp mp mf mb)). Qed.
 Print Assumptions C15_terminates.
 
 (* the property in one statement *)
-Theorem C15_holds : forall mp mf mb g wlen p,
-  wf_graph g (length p) -> rows_sorted g -> nonneg_edges g ->
+Theorem C15_holds : forall sp mp mf mb g wlen p,
+  wf_graph g (length p) -> (sp = true -> rows_sorted g) -> nonneg_edges g ->
   (length p <= wlen)%nat -> (length (uniq [] p) <= 2)%nat ->
-  exists q, kl_impl mp mf mb (kl_fuel g p) g wlen p = Ok q /\
+  exists q, kl_impl sp mp mf mb (kl_fuel sp g p) g wlen p = Ok q /\
             length q = length p /\ same_sizes p q /\ edge_cut g q <= edge_cut g p.
-Proof. exact (fun mp mf mb g wlen p => kl_total (kl_cfg_impl mp mf mb) g wlen p eq_refl eq_refl eq_refl). Qed.
+Proof. exact (fun sp mp mf mb g wlen p => kl_total (kl_cfg_impl sp mp mf mb) g wlen p eq_refl eq_refl eq_refl). Qed.
 Print Assumptions C15_holds.
 
 (* the checker run on the implementation's outputs decides the property *)
@@ -63,6 +72,12 @@ Theorem C15_checker_ok : forall g p p',
   check_C15 g p p' = true <-> (length p' = length p /\ same_sizes p p' /\ edge_cut g p' <= edge_cut g p).
 Proof. exact check_C15_ok. Qed.
 Print Assumptions C15_checker_ok.
+
+(* why the cut function is a parameter: on rows that are not sorted the CsMatView override
+   (take_while) and Topology::edge_cut disagree *)
+Theorem C15_cut_sprs_differs_unsorted :
+  edge_cut grid22_unsorted [0;1;1;0]%N = 4 /\ edge_cut_sprs grid22_unsorted [0;1;1;0]%N = 3.
+Proof. exact cut_sprs_differs_unsorted. Qed.
 
 (* regression: what the three repaired defects did (model with the old flags) *)
 Theorem C15_old_rewind_refuted :
@@ -79,7 +94,7 @@ Proof. exact kl_old_scan_panics. Qed.
 
 Theorem C15_old_one_part_panics :
   kl {| max_passes := None; max_flips := None; max_bad := 1%N; old_scan := false; old_rewind := false;
-        few_ids_return := false |} 10 path4 4 [0;0;0;0]%N = Panic 1
+        few_ids_return := false; sprs_cut := true |} 10 path4 4 [0;0;0;0]%N = Panic 1
   /\ kl (kl_cfg_of None None 1%N false false) 10 path4 4 [0;0;0;0]%N = Ok [0;0;0;0]%N
   /\ kl (kl_cfg_of None None 1%N false false) 10 [] 0 [] = Ok [].
 Proof. exact kl_old_one_part_panics. Qed.
@@ -92,9 +107,10 @@ Definition grid24 : graph :=
 Example C15_nonvacuous :
   wf_graphb grid24 8 = true /\ rows_sortedb grid24 = true /\ symmetricb grid24 = true /\ pos_edgesb grid24 = true
   /\ uniq [] [0;0;1;1;0;1;0;1]%N = [0;1]%N
-  /\ kl_impl None None 1%N (kl_fuel grid24 [0;0;1;1;0;1;0;1]%N) grid24 8 [0;0;1;1;0;1;0;1]%N = Ok [0;0;1;1;0;0;1;1]%N
+  /\ kl_impl true None None 1%N (kl_fuel true grid24 [0;0;1;1;0;1;0;1]%N) grid24 8 [0;0;1;1;0;1;0;1]%N = Ok [0;0;1;1;0;0;1;1]%N
   /\ edge_cut grid24 [0;0;1;1;0;1;0;1]%N = 6 /\ edge_cut grid24 [0;0;1;1;0;0;1;1]%N = 2.
 Proof. repeat split; vm_compute; reflexivity. Qed.
 Example C15_nonvacuous_unbalanced :
-  kl_impl None None 3%N (kl_fuel path4 [0;1;1;1]%N) path4 4 [0;1;1;1]%N = Ok [0;1;1;1]%N.
-Proof. vm_compute. reflexivity. Qed.
+  kl_impl true None None 3%N (kl_fuel true path4 [0;1;1;1]%N) path4 4 [0;1;1;1]%N = Ok [0;1;1;1]%N
+  /\ kl_impl false None None 1%N (kl_fuel false grid22_unsorted [0;1;1;0]%N) grid22_unsorted 4 [0;1;1;0]%N = Ok [0;1;0;1]%N.
+Proof. split; vm_compute; reflexivity. Qed.
